@@ -520,13 +520,15 @@ pub fn run_trial(ctx: &Ctx, env: &Env, trial: &Trial, case_seed: u64, mode: &str
         }
         if last_progress.elapsed() > Duration::from_millis(300) {
             // no delivery for 300 ms
-            if s.elems >= 1 && s.blocked_pop >= 1 {
+            // (a receiver inside a timed receive counts too: with the finite timeouts of the trials,
+            // at most 20 ms, such a state cannot last 300 ms unless its timeout is the endless one)
+            if s.elems >= 1 && s.blocked_pop + s.blocked_pop_timeout >= 1 {
                 // stuck state: confirm it is stable, that we were scheduled, then kick
                 let s2 = {
                     sleep_us(20_000);
                     server.vsnap()
                 };
-                if s2.elems >= 1 && s2.blocked_pop >= 1 && s2.pushes == s.pushes && sh.delivered.lock().unwrap().len() == n {
+                if s2.elems >= 1 && s2.blocked_pop + s2.blocked_pop_timeout >= 1 && s2.pushes == s.pushes && sh.delivered.lock().unwrap().len() == n {
                     if !cal.healthy(Duration::from_millis(150)) {
                         inconclusive = Some("stuck queue state but the calibrator shows the process was not scheduled".into());
                         break;
